@@ -290,9 +290,10 @@ def job_xproc(job):
     issues = []
     # the manager's DEFAULT container (Manager.ref() without data), used attribute-style: copy and original stay in step
     import xdeps
-    for style in ("attr", "item"):
+    for style in ("attr", "item", "newenv"):
         m0 = xdeps.Manager()
-        v = m0.ref(label="v")
+        # 'newenv': the container is attached with Manager.newenv(label, data) and used through the environment's ref
+        v = m0.ref(label="v") if style != "newenv" else m0.newenv("v", {})._
         if style == "attr":
             v.a = 1
             v.b = v.a * 2
